@@ -32,7 +32,8 @@ Ops(a) ==
   \cup {[name |-> "tail", n |-> n] : n \in 0..3}
   \cup {[name |-> "filter", pred |-> p] : p \in {q \in Preds : HasCol(a, q.col)}}
   \cup {[name |-> "subset_int", i |-> i] : i \in 0..NRows(a)}
-  \cup {[name |-> "subset_slice", a |-> x, b |-> y] : x \in 0..2, y \in 1..3}
+  \cup {[name |-> "subset_slice", a |-> x, b |-> y, step |-> st] : x \in 0..2, y \in 1..4, st \in 1..3}
+  \cup {[name |-> "peek", q |-> q] : q \in {[name |-> "head", n |-> 2], [name |-> "tail", n |-> 2], [name |-> "filter", pred |-> [op |-> "ge", col |-> "k", c |-> 1]]}}
   \cup {[name |-> "subset_list", idx |-> idx] : idx \in {<<0>>, <<1, 0>>, <<2, 2>>, <<0, 2, 1>>}}
   \cup {[name |-> "subset_mask", mask |-> m] : m \in [1..NRows(a) -> BOOLEAN]}
   \cup {[name |-> "sort", col |-> c, desc |-> d] : c \in {"k", "v"} \cap ColSet(a), d \in BOOLEAN}
@@ -48,7 +49,7 @@ Init == /\ A \in InitTabs /\ B \in InitB /\ depth = 0 /\ hist = <<>> /\ start = 
 
 Apply(op) == \E o \in Outcomes(op, A, B) :
                /\ depth < MaxDepth
-               /\ IF o.err # "" THEN A' = o.A ELSE A' = o.res
+               /\ IF o.err # "" \/ op.name = "peek" THEN A' = o.A ELSE A' = o.res
                /\ B' = o.B
                /\ NRows(A') <= MaxRows
                /\ depth' = depth + 1
